@@ -363,18 +363,24 @@ def build_sites() -> List[Site]:
                             return act2.resolve_variable(look)
                         yield ("var", str(pkg), bname, v.kind, look), call
 
+    import lark
+
+    class Stub(ev.Evaluator):
+        """runs the REAL `mapinits` / `fieldinits` methods on already evaluated children"""
+        def __init__(self):
+            pass
+
+        def visit_children(self, tree):
+            return list(tree._values)
+
+    def stub_tree(data, children, values):
+        t = lark.Tree(data, children)
+        t._values = values
+        return t
+
     def maplit_cases():
         def prim(items):
-            # Evaluator.mapinits after the children are evaluated
-            result_value = ct.MapType()
-            for item in items:
-                if isinstance(item, CELEvalError):
-                    return item
-            for key, value in zip(items[0::2], items[1::2]):
-                if key in result_value:
-                    raise ValueError(f"Duplicate key {key!r}")
-                result_value[key] = value
-            return result_value
+            return Stub().mapinits(stub_tree("mapinits", [], items))
         for a in P:
             yield ("map1", a.kind), (lambda a=a: prim([a.make(), ct.IntType(1)]))
         for a in P:
@@ -408,16 +414,14 @@ def build_sites() -> List[Site]:
 
     def fields_cases():
         def prim(names, values):
-            fields = {}
-            for ident, expr in zip(names, values):
-                if ident in fields:
-                    raise ValueError(f"Duplicate field label {ident!r}")
-                fields[ident] = expr
-            return ct.MessageType(**fields)
+            children = []
+            for n, v in zip(names, values):
+                children += [lark.Token("IDENT", n), stub_tree("expr", [], [v])]
+            return Stub().fieldinits(lark.Tree("fieldinits", children))
         for a in R:
             yield ("fields", "distinct", a.kind), (lambda a=a: prim(["a", "b"], [a.make(), a.make()]))
             yield ("fields", "duplicate", a.kind), (lambda a=a: prim(["a", "a"], [a.make(), a.make()]))
-            yield ("fields", "self", a.kind), (lambda a=a: prim(["self", "items"], [a.make(), a.make()]))
+            yield ("fields", "pynames", a.kind), (lambda a=a: prim(["self", "items", "args", "fields", "cls"], [a.make()] * 5))
 
     def literal_cases():
         parser = celpy.CELParser()
@@ -458,9 +462,13 @@ def build_sites() -> List[Site]:
         Site("dotNameContainer", "member_dot", "member[property_name].value", dot_cases("nc")),
         Site("dotMessage", "member_dot", "member.get(property_name)", dot_cases("msg")),
         Site("dotMap", "member_dot", "member[property_name]", dot_cases("map"), which=1),
-        Site("macroIter", "member_dot_arg", "celpy.celtypes.ListType(mapping)", iter_cases,
-             also=("map(sub_expr, member_list)", "filter(sub_expr, member_list)")),
-        Site("macroTruth", "member_dot_arg", "bool(sub_expr(value))", truth_cases),
+        # map / filter / exists_one: iteration and truthiness of the body values under one `try … except CELEvalError`
+        Site("macroIter", "member_dot_arg", "celpy.celtypes.ListType(mapping)", lambda: list(iter_cases()) + list(truth_cases()),
+             also=("celpy.celtypes.ListType(filter(sub_expr, member_list))", "bool(sub_expr(value))")),
+        # all / exists / reduce: the receiver is iterated outside any try
+        Site("macroIterBare", "member_dot_arg", "reduce(and_oper, map(sub_expr, member_list), celpy.celtypes.BoolType(True))",
+             iter_cases, also=("reduce(or_oper, map(sub_expr, member_list), celpy.celtypes.BoolType(False))",
+                               "reduce(reduce_expr, member_list, initial_value)")),
         Site("macroMin", "member_dot_arg", "min(member_list)", min_cases),
         Site("macroFold", "member_dot_arg", "eval_error('no such overload', TypeError)", fold_cases),
         Site("methodResolve", "method_eval", "self.activation.resolve_function(method_ident.value)", resolve_fn_cases),
